@@ -622,6 +622,85 @@ def kept_between_calls(mod, func):
     return out
 
 
+_OUTSIDE = ('os.stat', 'os.lstat', 'os.listdir', 'os.readlink', 'os.path.exists',
+            'os.path.islink', 'os.path.isfile', 'os.path.isdir',
+            'os.path.getmtime', 'glob.glob', 'time.time', 'io.open', 'open')
+_OUTSIDE_METHODS = ('get', 'get_children', 'exists', 'get_with_metadata',
+                    'get_default', 'list', 'paged_search', 'search')
+
+
+def reads_outside(mod, func, depth=0, _seen=None):
+    """The routine (or a routine of the same module it calls) reads state
+    outside the process: the file system, the clock, ZooKeeper, the admin
+    store."""
+    _seen = _seen if _seen is not None else set()
+    if func.fq in _seen or depth > 3:
+        return False
+    _seen.add(func.fq)
+    for call in calls(func.raw):
+        text = callee_text(call)
+        if text in _OUTSIDE:
+            return True
+        if isinstance(call.func, ast.Attribute) and \
+                call.func.attr in _OUTSIDE_METHODS:
+            base = recv_text(call) or ''
+            if any(w in base for w in ('zk', 'backend', 'admin', 'client')):
+                return True
+            if isinstance(recv(call), ast.Call):    # _admin_x().get(..)
+                return True
+        if isinstance(call.func, ast.Name):
+            callee = mod.functions.get(call.func.id)
+            if callee is not None and reads_outside(mod, callee, depth + 1,
+                                                    _seen):
+                return True
+        if isinstance(call.func, ast.Attribute) and \
+                recv_text(call) in ('self', 'cls') and func.cls is not None:
+            callee = func.cls.methods.get(call.func.attr)
+            if callee is not None and reads_outside(mod, callee, depth + 1,
+                                                    _seen):
+                return True
+    return False
+
+
+def no_hidden_state(ctx, rule, files):
+    """Generic clause: a routine of the anchored modules that reads state
+    outside the process (file system, clock, ZooKeeper, admin store) answers
+    from what it reads now - it neither carries a memoising decorator nor
+    keeps results in a module-level container between calls.  (Pure helpers
+    are not judged: memoising those changes nothing.)"""
+    judged = 0
+    for rel in sorted(files):
+        name = rel[len('lib/python/'):-3].replace('/', '.')
+        if name.endswith('.__init__'):
+            name = name[:-len('.__init__')]
+        try:
+            mod = ctx.index.module(name)
+        except Exception:           # pylint: disable=broad-except
+            continue
+        bad = []
+        for func in mod.live_functions():
+            memo = [N.txt(d) for d in func.decorators()
+                    if any(w in N.txt(d).lower()
+                           for w in ('cache', 'memo', 'lru'))]
+            kept = kept_between_calls(mod, func)
+            if (memo or kept) and reads_outside(mod, func):
+                bad.append((func, memo, kept))
+        judged += 1
+        if not bad:
+            ctx.ok(rule, name, None,
+                   'no routine of %s that reads outside state keeps results '
+                   'between calls' % name,
+                   construct='no hidden state in %s' % name, file=mod.rel)
+        for func, memo, kept in bad:
+            ctx.fail(rule, func, kept[0] if kept else None,
+                     '%s reads outside state but answers from a %s: a later '
+                     'change of what it read is not seen' % (
+                         func.qualname, 'memo (%s)' % memo[0] if memo else
+                         'module-level container'),
+                     construct='no hidden state in %s' % name)
+    return judged
+
+
 _DOM_CACHE = {}
 
 
